@@ -110,7 +110,8 @@ def parse_items(c, path=()):
         attrs = skip_attrs(c)
         is_test = any(a.replace(' ', '') == 'cfg(test)' for a in attrs)
         # visibility
-        if c.peek() == 'pub':
+        is_pub = c.peek() == 'pub'
+        if is_pub:
             c.next()
             if c.peek() == '(':
                 skip_balanced(c)
@@ -205,7 +206,7 @@ def parse_items(c, path=()):
             # strip where clause
             if 'where' in ret:
                 ret = ret[:ret.index('where')]
-            items.append(dict(kind='fn', name=name, params=params, ret=ret, body=body, path=path,
+            items.append(dict(kind='fn', name=name, params=params, ret=ret, body=body, path=path, is_pub=is_pub,
                               attrs=attrs, quals=quals, is_test=is_test))
         elif t == 'macro_rules!' or (c.kind() == 'ident' and t.endswith('!')):
             c.next()
